@@ -10,7 +10,7 @@ from ..ops import World
 
 class C12(Machine):
     ID = "C12"
-    FAMILY_WEIGHTS = {"sparse": 3, "dense": 3, "canal": 1, "modular": 2, "maa": 3, "cascade": 1}
+    FAMILY_WEIGHTS = {"sparse": 3, "dense": 3, "canal": 1, "modular": 2, "maa": 3, "cascade": 1, "maa_cascade": 4}
     NMAX = {"quick": 6, "thorough": 8}
 
     def gen_params(self, sc, rng):
@@ -19,6 +19,16 @@ class C12(Machine):
             sc["walk_seed"] = rng.randrange(1 << 30)
         if rng.random() < 0.25:
             sc["reorder_seed"] = rng.randrange(1 << 30)
+        if rng.random() < 0.2:
+            # tight candidate limits: the default method gives up with the documented limit
+            # error and seeds are obtained through the symbolic fallback (public flag)
+            from ..netgen import DEFAULT_CONFIG
+
+            cfg = dict(DEFAULT_CONFIG)
+            cfg["attractor_candidates_limit"] = rng.choice([0, 1, 1, 2])
+            cfg["retained_set_optimization_threshold"] = rng.choice([0, 1, 1, 2])
+            sc["config"] = cfg
+            sc["params"]["tight"] = True
 
     def setup(self, world, sc):
         return {"params": sc["params"], "sc": sc, "n_prefix": 0, "n_q": 0, "sets_checked": 0, "fallback_runs": 0, "complex_sets": 0}
@@ -48,13 +58,15 @@ class C12(Machine):
         if kind == "candidates":
             return {"op": "candidates", "node": sp, "compute": True, "greedy": True, "sim": True}
         if kind == "seeds":
-            return {"op": "seeds", "node": sp, "compute": True, "fallback": False}
+            return {"op": "seeds", "node": sp, "compute": True, "fallback": bool(p.get("tight")) and rng.random() < 0.7}
         return {"op": "sets", "node": sp, "compute": True}
 
     # ------------------------------------------------------------------ checks
     def check_step(self, world, st, op, out, step):
         if op.get("fallback_twin") is not None:
             return self.fallback_twin(world, st, op, step)
+        if out["cls"] == "limit_error" and st["params"].get("tight"):
+            return []  # the documented resource-limit error under non-default limits
         if out["cls"] in ("crash", "key_error", "limit_error") and op["op"] in ("candidates", "seeds", "sets"):
             return [viol(self.ID, "query_raised", step, {"op": op, "cls": out["cls"], "type": out.get("type"), "msg": out.get("msg")}, op["op"])]
         if out["cls"] != "ok" or op["op"] != "sets":
